@@ -365,6 +365,14 @@ func GenDamages(t *rapid.T, signed Tree, maxN int, hidden, whole bool) []Dmg {
 			case k < 8:
 				d.Op = "retarget"
 				d.Dest = GenDest(t) + "x"
+				if rapid.IntRange(0, 2).Draw(t, "retarget-respelled") == 0 {
+					// another string that lexical path cleaning maps to the same thing as the signed destination
+					// (it need not resolve to the same file: "x/../a" goes through x)
+					alt := rapid.SampledFrom([]string{"./" + e.Dest, e.Dest + "/", "x/../" + e.Dest, strings.Replace(e.Dest, "/", "//", 1), strings.TrimPrefix(e.Dest, "./"), strings.TrimSuffix(e.Dest, "/")}).Draw(t, "respelling")
+					if alt != e.Dest && alt != "" {
+						d.Dest = alt
+					}
+				}
 			case k < 13:
 				d.Op = "delete"
 			case k < 17:
@@ -422,6 +430,10 @@ func DmgClasses(signed Tree, ds []Dmg) []string {
 				cl = append(cl, "damage:length-change-crossing-block-boundary")
 			} else {
 				cl = append(cl, "damage:extend-within-last-block")
+			}
+		case "retarget":
+			if filepath.Clean(d.Dest) == filepath.Clean(e.Dest) {
+				cl = append(cl, "damage:symlink-retargeted-to-a-respelling")
 			}
 		case "tofile", "todir", "tolink", "tomirror":
 			cl = append(cl, "damage:kind-swap:"+e.Kind+"->"+d.Op[2:])
